@@ -337,8 +337,8 @@ structure AnchoredLiteralInfo where
   minLength : Nat
   deriving Repr
 
-def isStartAnchor (re : Re) : Bool := decide (re.op = .beginText) || decide (re.op = .beginLine)
-def isEndAnchor (re : Re) : Bool := decide (re.op = .endText) || decide (re.op = .endLine)
+def isStartAnchor (re : Re) : Bool := decide (re.op = .beginText)
+def isEndAnchor (re : Re) : Bool := decide (re.op = .endText)
 
 def isGreedyWildcard (re : Re) : Bool :=
   if re.op ≠ .star ∧ re.op ≠ .plus then false else
